@@ -104,6 +104,14 @@ class Model:
         if not os.path.exists(MODEL_BIN):
             raise RuntimeError(f"{MODEL_BIN} missing: run the setup command (make -C /verif)")
         self.calls = 0
+        self.sample = []          # (op, request text, reply text) kept for the in-kernel cross-check
+        self.sample_ops = {}
+
+    def _keep(self, op, req_text, reply_text):
+        n = self.sample_ops.get(op, 0)
+        if n < 40 and len(req_text) + len(reply_text) < 6000 and len(self.sample) < 400:
+            self.sample_ops[op] = n + 1
+            self.sample.append((op, req_text, reply_text))
 
     def batch(self, requests):
         """requests: list of (op, value).  Returns the list of parsed replies."""
@@ -119,10 +127,57 @@ class Model:
                                f"{len(lines) - 1}/{len(requests)} replies; stderr={r.stderr[-400:]!r}; "
                                f"next request: {text.splitlines()[max(0, len(lines) - 1)][:300]}")
         self.calls += len(requests)
+        step = max(1, len(requests) // 40)
+        for i in range(0, len(requests), step):
+            self._keep(requests[i][0], ser(requests[i][1]), lines[i])
         return [parse(ln) for ln in lines[:len(requests)]]
 
     def call(self, op, v):
         return self.batch([(op, v)])[0]
+
+
+def coq_term(v):
+    """Parsed wire value -> Gallina term of type val."""
+    if isinstance(v, Atom):
+        return 'VT "%s"' % str(v)
+    if isinstance(v, bool):
+        return 'VT "%s"' % ("true" if v else "false")
+    if isinstance(v, int):
+        return "VZ (%d)%%Z" % v
+    if isinstance(v, (bytes, bytearray)):
+        return "VS [" + "; ".join("%d%%N" % b for b in v) + "]"
+    if isinstance(v, (list, tuple)):
+        return "VL [" + "; ".join(coq_term(x) for x in v) + "]"
+    raise TypeError(type(v))
+
+
+def kernel_crosscheck(model, workdir):
+    """Re-evaluate the sampled requests inside Coq (vm_compute on NGS.Dispatch)
+    and compare with what the extracted binary answered.  Returns
+    (n_checked, mismatching_cases)."""
+    cases = model.sample
+    if not cases:
+        return 0, []
+    os.makedirs(workdir, exist_ok=True)
+    path = os.path.join(workdir, "XCheck.v")
+    with open(path, "w") as f:
+        f.write("From Coq Require Import NArith ZArith List String.\n"
+                "From NGS Require Import Val Dispatch ValEq.\nImport ListNotations.\n"
+                "Open Scope string_scope.\n"
+                "Definition cases : list (string * val * val) := [\n")
+        f.write(";\n".join('  ("%s", %s, %s)' % (op, coq_term(parse(rq)), coq_term(parse(rp)))
+                            for op, rq, rp in cases))
+        f.write("\n].\nEval vm_compute in (mismatches cases).\n")
+    r = subprocess.run(["coqc", "-Q", os.path.join(COQ_DIR, "theories"), "NGS", path],
+                       stdout=subprocess.PIPE, stderr=subprocess.STDOUT, timeout=3000,
+                       preexec_fn=_unlimit_stack)
+    out = r.stdout.decode()
+    m = __import__("re").search(r"=\s*\[([^\]]*)\]", out)
+    if r.returncode != 0 or not m:
+        return len(cases), [{"error": out[-500:]}]
+    idx = [int(x) for x in m.group(1).replace("%nat", "").split(";") if x.strip()]
+    return len(cases), [{"op": cases[i][0], "request": cases[i][1][:300], "binary_reply": cases[i][2][:300]}
+                        for i in idx]
 
 
 def _unlimit_stack():
